@@ -208,7 +208,7 @@ Record oracles := mkor {
   o_cur_nonempty : bool;      (* :393 !cur.is_empty() after the last part *)
   o_lines : list N }.         (* console_width() of every line handed to the draw target *)
 
-Definition seq {A} (o : outcome unit) (k : outcome A) : outcome A :=
+Definition oseq {A} (o : outcome unit) (k : outcome A) : outcome A :=
   match o with Ok _ => k | Panic s => Panic s end.
 
 (** get_tick_str (style.rs:182-184); [idx as usize] is the identity on a 64 bit target.
@@ -295,7 +295,7 @@ Definition placeholder_sites (st : style) (sn : snapshot) (O : oracles) (i : nat
     if existsb (list_eqb N.eqb key) (st_keys st) then Ok (None, o_meas O i)   (* :257-258 tracker.write *)
     else if key_is key KeyNames.wide_bar then Ok (Some WBar, o_meas O i)             (* :261-264 *)
     else if key_is key KeyNames.bar then                                              (* :265-274 *)
-      seq (format_bar st O (match ph_width p with Some w => w | None => DEFAULT_BAR_WIDTH end))
+      oseq (format_bar st O (match ph_width p with Some w => w | None => DEFAULT_BAR_WIDTH end))
           (Ok (None, o_meas O i))
     else if key_is key KeyNames.spinner then                                          (* :275 *)
       match current_tick_str st sn with
@@ -314,7 +314,7 @@ Definition placeholder_sites (st : style) (sn : snapshot) (O : oracles) (i : nat
   match arm with
   | Panic s => Panic s
   | Ok (nw, buf) =>
-      seq (match ph_width p with                                               (* :365-384 *)
+      oseq (match ph_width p with                                               (* :365-384 *)
            | Some w => padded_sites buf w (ph_align p) (ph_trunc p)
            | None => Ok tt
            end)
@@ -346,7 +346,7 @@ Fixpoint walk (st : style) (sn : snapshot) (O : oracles) (tw : N) (i : nat) (ps 
       | Ok nw => walk st sn O tw (S i) r (match nw with Some x => Some x | None => wd end)
       end
   | PNewLine :: r =>                                                           (* :387-389 *)
-      seq (push_line_sites st sn O i wd tw) (walk st sn O tw (S i) r wd)
+      oseq (push_line_sites st sn O i wd tw) (walk st sn O tw (S i) r wd)
   end.
 
 (** format_state (style.rs:234-396) *)
@@ -401,7 +401,7 @@ Definition frame_outcome (ls : list N) (tw th n : N) (bottom : bool) : outcome N
 (** BarState::draw (state.rs:200-223) on a target that accepts the draw *)
 Definition draw_outcome (st : style) (sn : snapshot) (tw th n : N) (bottom : bool) (O : oracles)
   : outcome N :=
-  seq (render_outcome st sn tw O) (frame_outcome (o_lines O) tw th n bottom).
+  oseq (render_outcome st sn tw O) (frame_outcome (o_lines O) tw th n bottom).
 
 (** ** specification side *)
 (** the invariant of every style the builder hands out *)
